@@ -348,6 +348,34 @@ func cmdCheck(args []string) int {
 		}
 		violations = append(violations, o)
 	}
+	// bounded conformance stand-ins (thorough tier): the executable contracts of
+	// functions marked `bounded` are run against the default build
+	var boundedRes []map[string]any
+	if *tier == "thorough" || os.Getenv("VERIF_BOUNDED_IN_QUICK") != "" {
+		var bcs []*Contract
+		for _, cf := range g.files {
+			for _, c := range cf.Contracts {
+				if c.Bounded != "" && contains(c.Props, *prop) {
+					bcs = append(bcs, c)
+				}
+			}
+		}
+		if len(bcs) > 0 {
+			pkgs := map[string]bool{}
+			for _, c := range bcs {
+				pkgs[c.Pkg] = true
+			}
+			if p, err := g.Load("verif", sortedKeys(pkgs)); err == nil {
+				for _, c := range bcs {
+					res, o := g.boundedStandin(p, c, work, *repo, *verif)
+					boundedRes = append(boundedRes, res)
+					if o != nil {
+						violations = append(violations, o)
+					}
+				}
+			}
+		}
+	}
 	// output
 	sortedObs(violations)
 	printed := map[string]bool{}
@@ -431,6 +459,7 @@ func cmdCheck(args []string) int {
 			"backends":                  backends,
 			"per_obligation":            perOb,
 			"vacuity_canaries":          vac,
+			"bounded_standins":          boundedRes,
 			"unreachable_returns":       unreachable,
 			"solver_cpu_s":              round3(solverSecs),
 			"solver_wall_s":             round3(solveWall),
